@@ -47,6 +47,7 @@ type script struct {
 	stringable bool // wrapped writer implements io.StringWriter
 	greedy     bool // consumer drains in a loop from the start
 	late       int  // consumer only starts before call #late (-1: per-call flags)
+	absent     bool // consumer absent until Close: it asks for Status() only once the writer is inside Close()
 }
 
 func (s script) render() string {
@@ -68,7 +69,7 @@ func (s script) render() string {
 		}
 		parts = append(parts, p)
 	}
-	return fmt.Sprintf("stringWriter=%v greedy=%v late=%d: %s", s.stringable, s.greedy, s.late, strings.Join(parts, "; "))
+	return fmt.Sprintf("stringWriter=%v greedy=%v late=%d absentUntilClose=%v: %s", s.stringable, s.greedy, s.late, s.absent, strings.Join(parts, "; "))
 }
 
 // wrapped writers ---------------------------------------------------------
@@ -139,7 +140,10 @@ func runScript(s script) (string, outcome) {
 		inner = pw0
 	}
 	pw := ioutil.NewProgressWriter(inner)
-	status := pw.Status()
+	var status chan int
+	if !s.absent {
+		status = pw.Status()
+	}
 
 	var received []int
 	closedSeen := false
@@ -147,6 +151,9 @@ func runScript(s script) (string, outcome) {
 	consumerDone := make(chan struct{})
 	go func() {
 		defer close(consumerDone)
+		if s.absent {
+			return // this consumer shows up - and asks for the channel - only when the writer is in Close()
+		}
 		if s.greedy {
 			for v := range status {
 				received = append(received, v)
@@ -170,7 +177,7 @@ func runScript(s script) (string, outcome) {
 	var expectData bytes.Buffer
 	for i, c := range s.calls {
 		parked := receiving
-		if !s.greedy && c.consume && (s.late < 0 || i >= s.late) && !receiving {
+		if !s.greedy && !s.absent && c.consume && (s.late < 0 || i >= s.late) && !receiving {
 			token <- struct{}{}
 			parked, receiving = true, true
 		}
@@ -229,7 +236,21 @@ func runScript(s script) (string, outcome) {
 		return "the bytes that reached the wrapped writer differ from the bytes written", oc
 	}
 	// Close needs a receiver (documented): make sure one is there, then close.
-	if !s.greedy {
+	if s.absent {
+		// absent until Close: nobody has even asked for the channel so far. The writer goes into Close(), and only
+		// then does the consumer call Status() and drain: it must get the final total and see the channel closed.
+		closeReturned := make(chan struct{})
+		go func() {
+			pw.Close()
+			close(closeReturned)
+		}()
+		synctest.Wait()
+		for v := range pw.Status() { // a hang here is reported by the bubble as a deadlock
+			received = append(received, v)
+		}
+		closedSeen = true
+		<-closeReturned
+	} else if !s.greedy {
 		// a consumer that was parked by an earlier token and never served is still receiving; otherwise park it now
 		synctest.Wait()
 		go func() {
@@ -243,7 +264,9 @@ func runScript(s script) (string, outcome) {
 			}
 		}()
 	}
-	pw.Close()
+	if !s.absent {
+		pw.Close()
+	}
 	<-consumerDone
 	oc.received = len(received)
 	if !closedSeen {
@@ -283,6 +306,8 @@ func genScript(t *rapid.T) script {
 		s.greedy = true
 	case 1:
 		s.late = rapid.IntRange(0, 10).Draw(t, "late")
+	case 2:
+		s.absent = true
 	}
 	every := rapid.IntRange(0, 4).Draw(t, "consumeEvery") // 0: never until Close
 	n := rapid.IntRange(0, 14).Draw(t, "ncalls")
@@ -345,6 +370,8 @@ func TestScripts(t *testing.T) {
 		}
 		if s.greedy {
 			ev.Label("consumer:greedy")
+		} else if s.absent {
+			ev.Label("consumer:absent_until_Close_asks_for_Status_then")
 		} else if s.late >= 0 {
 			ev.Label("consumer:late")
 		} else {
